@@ -427,7 +427,12 @@ where
                                 .await
                             {
                                 Ok(strm) => strm,
-                                Err(e) => return Err(e),
+                                Err(e) => {
+                                    // The Search has failed; the result of the last page
+                                    // received is not the result of the Search.
+                                    stream.res = None;
+                                    return Err(e);
+                                }
                             };
                             // Again, we're replacing the innards of the original stream with
                             // the contents of the new one.
